@@ -20,9 +20,7 @@ if __name__ == "__main__":
     with open(sys.argv[1], "rb") as f:
         req = pickle.load(f)
     try:
-        c = pickle.loads(req["blob"])
-        out = [m.do_op(c, op, req["inputs"]) for op in req["suffix"]]
-        res = ("ok", (out, m.grammar_view(c), c.execution_statistics.n_executions))
+        res = ("ok", getattr(m, req.get("fn", "child_discipline"))(req))
     except BaseException as exc:  # noqa: BLE001
         res = ("exc", repr(exc))
     with open(sys.argv[2], "wb") as f:
